@@ -23,6 +23,13 @@ type RCase struct {
 	Expect int        `json:"expect,omitempty"` // C11: data bytes encoded before the gate
 }
 
+func (c *RCase) knownClass() string {
+	if c.Stream.W != nil {
+		return c.Stream.W.knownClass()
+	}
+	return ""
+}
+
 func (c *RCase) sample() string {
 	s := fmt.Sprintf("%s stream=%s cut=%d suffix=%d src=%s ctor=%s reads=%s", c.API, c.Stream.describe(), c.Cut, len(c.Suffix)/2, c.Src, c.Ctor, c.Reads)
 	if c.Src2 != nil {
@@ -329,8 +336,13 @@ func checkC05(rep *Report, pool *DriverPool, c *RCase) {
 
 func checkC11(rep *Report, pool *DriverPool, c *RCase) {
 	stream, data, _, shape, dict := c.input()
-	_ = data
-	o := RunR(c.API, false, stream, dict, c.Src, c.Ctor, nil, c.Reads, c.RSeed, 0)
+	api := c.API
+	if api == "gzip" && (c.Src.After >= len(stream) || c.Src.After < 0) {
+		// in its default mode a gzip Reader has to look for a further member, which only the
+		// source's EOF can rule out: the end of the stream is checked with Multistream(false)
+		api = "gzip1"
+	}
+	o := RunR(api, false, stream, dict, c.Src, c.Ctor, nil, c.Reads, c.RSeed, 0)
 	rep.Eval(fmt.Sprintf("%s|%s|%s|%d|%d", c.API, shape, c.Src, c.Src.After, c.Expect), c.sample())
 	rep.Count("term:" + c.Src.Term)
 	rep.Count("api:" + c.API)
